@@ -597,7 +597,7 @@ func judgeTwin(rep *Report, pr *ProgResult, keys []string, pairs [][2]string) {
 func CheckC13(e *Env) int {
 	t0 := time.Now()
 	rep := NewReport(e, "C13", "exploration", "typed grammar enumeration (atoms over every operand kind, then unary/binary/conversion/composite/index/slice/selector/deref/address-of/type-assert wrappers to depth 2-3) each placed in the injector's package and in another package's set; oracle from the generator's own expression tree: expressions containing a call of a function, method, function-typed variable/field (named function types included), function literal call or a channel receive, wire.Value of interface type, InterfaceValue that does not implement, or unexported/non-package-scope identifiers seen from another package must be rejected; all others must be accepted and at run time be reflect.DeepEqual to the same expression evaluated in its home package, deliver the very address for &pkgVar forms, and the same pointer across calls and across injectors sharing the set; distinct = (production, operand kind, placement, class)")
-	runValueCases(e, rep, c13Exprs(e), "c13")
+	runValueCases(e, rep, append(c13Exprs(e), c13LiteralExprs()...), "c13")
 	judgeHazards(e, rep)
 	tp, tkeys, tpairs := c13TwinProgram("vtwin")
 	tres := RunPool(e, []*Program{tp}, PoolOpts{Execute: true, Name: "c13tw", BatchSize: 1})
@@ -1005,4 +1005,23 @@ func judgeHazards(e *Env, rep *Report) {
 			rep.Held("hazard;" + h.Name + ";accepted-equal")
 		}
 	}
+}
+
+// c13LiteralExprs: number, rune and string literals in every spelling the language has (digit
+// separators, binary / octal / hex prefixes, hex floats, imaginary literals, escapes): the copy
+// has to denote exactly the written value, to the last digit.
+func c13LiteralExprs() []vexpr {
+	var out []vexpr
+	add := func(typ string, exprs ...string) {
+		for _, x := range exprs {
+			out = append(out, vexpr{Expr: x, Type: typ, Class: "accept", Kind: "literal-spelling"})
+		}
+	}
+	add("float64", "0.072_125_57", "1_000.000_001", "0x1.921fb54442d18p+1", "0X1p-2", "1e-7", "6.02214076e23", "0.1 + 0.2", "1_0.2_5e1_0", ".5", "5.")
+	add("int", "12_500_000", "0b1010_0101", "0o17_7", "0x_FF_FF", "0377", "1_0")
+	add("rune", "'\\u00e9'", "'\\x7f' + 1", "'a'")
+	add("complex128", "1_0.5i", "0x1p-2i", "2.5 + 1e3i")
+	add("float32", "float32(16_777_217.0)", "float32(0.072_125_57)")
+	add("string", "\"\\u00e9\\x41\\101\\n\"", "`a\\n_1_0`", "\"0.072_125_57\"")
+	return out
 }
